@@ -1,18 +1,21 @@
 #!/bin/bash
-# seed_try.sh <patch.diff> <check ids...>: apply a seeded change to /repo, run the given checks, undo it (reverse-apply).
+# seed_try.sh <patch.diff> <check ids...>: run the given checks against a scratch worktree of /repo (HEAD + uncommitted hook
+# state is NOT included: HEAD only) with the seeded change applied.  /repo itself is never touched (other work keeps running
+# against it); the scratch tree is removed afterwards (build output: rm -rf /verif/build/target_alt /verif/build/harness_alt when a batch is done).
 set -u
 PATCH=$1; shift
+WT=/tmp/seedrepo
 cd /verif
-git -C /repo apply --check "$PATCH" || { echo "patch does not apply"; exit 2; }
-git -C /repo apply "$PATCH"
+git -C /repo worktree add -q --detach $WT HEAD || exit 2
+trap 'git -C /repo worktree remove --force $WT 2>/dev/null' EXIT
+git -C $WT apply --check "$PATCH" || { echo "patch does not apply"; exit 2; }
+git -C $WT apply "$PATCH"
 mkdir -p /verif/build/seed_evidence
 for c in "$@"; do
   cp /verif/evidence/$c.json /verif/build/seed_evidence/$c.clean.json 2>/dev/null
-  out=$(./check $c 2>&1); rc=$?
+  out=$(VERIF_REPO=$WT ./check $c 2>&1); rc=$?
   cp /verif/evidence/$c.json /verif/build/seed_evidence/$c.seeded.json 2>/dev/null
   cp /verif/build/seed_evidence/$c.clean.json /verif/evidence/$c.json 2>/dev/null   # the tracked evidence describes the unchanged tree
   echo "== $c exit=$rc"
   echo "$out" | grep -E "VIOLATION|KNOWN-FINDING|quick:" | cut -c1-300
 done
-git -C /repo apply -R "$PATCH"
-git -C /repo status --short | head -5
